@@ -66,9 +66,12 @@ Qed.
 Lemma set_tag_sev_msg tag : r_msg (set_tag new_record tag) = [].
 Proof. destruct tag as [t|]; simpl; [|reflexivity]. destruct (cstr t); reflexivity. Qed.
 
-Lemma fresh_record sv tag :
-  set_severity (set_tag new_record tag) sv = mkRecord sv (tag_text tag) [].
-Proof. unfold set_severity. now rewrite set_tag_text, set_tag_sev_msg. Qed.
+Lemma fresh_record lg sv tag :
+  set_severity (if lg_tagged lg then set_tag new_record tag else new_record) sv = mkRecord sv (rec_tag lg tag) [].
+Proof.
+  unfold set_severity, rec_tag. destruct (lg_tagged lg); [|reflexivity].
+  now rewrite set_tag_text, set_tag_sev_msg.
+Qed.
 
 Lemma cstr_no_nul t : ~ In x00 t -> cstr t = t.
 Proof.
@@ -148,10 +151,10 @@ Proof. reflexivity. Qed.
 
 Lemma construct_spec th lg sv tag :
   ss_construct th lg sv tag
-  = if holds th (lg_filter lg) sv then live (mkRecord sv (tag_text tag) []) [] else dead.
+  = if holds (th (lg_rec lg)) (lg_filter lg) sv then live (mkRecord sv (rec_tag lg tag) []) [] else dead.
 Proof.
   unfold ss_construct. rewrite filt_holds, fresh_record. simpl r_sev.
-  destruct (holds th (lg_filter lg) sv); reflexivity.
+  destruct (holds (th (lg_rec lg)) (lg_filter lg) sv); reflexivity.
 Qed.
 
 (* ---------------------------------------------------------------- form 1 *)
@@ -161,7 +164,7 @@ Theorem exec_one_spec cfg th lg sv tag its :
 Proof.
   unfold exec_one, spec_stmt, enabled, stream_kind. rewrite sev_ge_gate.
   destruct (gate_open (c_min cfg) sv); [|reflexivity]. simpl andb.
-  rewrite construct_spec. destruct (holds th (lg_filter lg) sv).
+  rewrite construct_spec. destruct (holds (th (lg_rec lg)) (lg_filter lg) sv).
   - rewrite one_chain_live. cbn [flat_map]. rewrite (app_nil_r (repeat dead (length its))), destroy_deads.
     rewrite app_nil_r. cbn [app]. rewrite destroy_live. reflexivity.
   - rewrite one_chain_dead. cbn [flat_map]. rewrite app_nil_r, destroy_deads. reflexivity.
@@ -182,10 +185,10 @@ Proof.
 Qed.
 
 Lemma one_chain_prefix th lg sv tag pre :
-  holds th (lg_filter lg) sv = true ->
+  holds (th (lg_rec lg)) (lg_filter lg) sv = true ->
   exists olds,
     one_chain (ss_construct th lg sv tag) [] pre
-    = ((live (mkRecord sv (tag_text tag) []) (message pre), olds), map Call (calls_of pre)).
+    = ((live (mkRecord sv (rec_tag lg tag) []) (message pre), olds), map Call (calls_of pre)).
 Proof.
   intros H. rewrite construct_spec, H, one_chain_live. eexists. reflexivity.
 Qed.
@@ -256,11 +259,11 @@ Proof.
 Qed.
 
 Lemma make_stream_rel cfg th lg sv tag :
-  stream_rel (mkL lg sv (tag_text tag) (enabled (c_min cfg) th lg sv) []) (make_stream cfg th lg sv tag).
+  stream_rel (mkL lg sv (rec_tag lg tag) (enabled (c_min cfg) th lg sv) []) (make_stream cfg th lg sv tag).
 Proof.
   unfold stream_rel, make_stream, enabled, stream_kind. cbn [l_on l_sev l_tag l_text].
   rewrite sev_ge_gate. destruct (gate_open (c_min cfg) sv); cbn [andb].
-  - rewrite construct_spec. destruct (holds th (lg_filter lg) sv); [reflexivity | now right].
+  - rewrite construct_spec. destruct (holds (th (lg_rec lg)) (lg_filter lg) sv); [reflexivity | now right].
   - now left.
 Qed.
 
@@ -268,7 +271,7 @@ Lemma refine_op cfg w sw o : R w sw ->
   R (fst (exec_op cfg w o)) (fst (spec_op cfg sw o))
   /\ snd (exec_op cfg w o) = snd (spec_op cfg sw o).
 Proof.
-  intros HR. destruct o as [k s|lg sv tag its|v lg sv tag|v it|v]; cbn [exec_op spec_op].
+  intros HR. destruct o as [rc k s|lg sv tag its|v lg sv tag|v it|v]; cbn [exec_op spec_op].
   - destruct HR as [Hth Hs]. cbn [fst snd]. split; [|reflexivity]. split; [|exact Hs].
     cbn [w_th s_th]. now rewrite Hth.
   - cbn [fst snd]. split; [exact HR|]. destruct HR as [Hth _]. rewrite <- Hth. apply exec_one_spec.
@@ -317,7 +320,7 @@ Proof. unfold run, spec_run. apply refine_prog. apply R_init. Qed.
 
 (* operations allowed between Open v and Close v in the lemma below: insertions into v and threshold changes *)
 Definition mid_ok (v : nat) (o : op) : bool :=
-  match o with OPut v' _ => v' =? v | OSet _ _ => true | _ => false end.
+  match o with OPut v' _ => v' =? v | OSet _ _ _ => true | _ => false end.
 Definition items_of (mid : list op) : list item :=
   flat_map (fun o => match o with OPut _ it => [it] | _ => [] end) mid.
 
@@ -337,9 +340,9 @@ Proof.
   induction mid as [|o mid IH]; intros w st Hok Hv.
   - exists w. split; [reflexivity | exact Hv].
   - cbn [forallb] in Hok. apply andb_true_iff in Hok as [Ho Hok].
-    destruct o as [k s|?|?|v' it|?]; try discriminate.
+    destruct o as [rc k s|?|?|v' it|?]; try discriminate.
     + (* OSet *) cbn [exec_prog exec_op].
-      destruct (IH (mkWorld (set_threshold (w_th w) k s) (w_slots w)) st Hok Hv) as (w' & E & Hv').
+      destruct (IH (mkWorld (set_threshold (w_th w) rc k s) (w_slots w)) st Hok Hv) as (w' & E & Hv').
       rewrite E. exists w'. split; [reflexivity | exact Hv'].
     + (* OPut *) cbn [mid_ok] in Ho. apply Nat.eqb_eq in Ho. subst v'.
       cbn [exec_prog exec_op]. rewrite Hv. cbn [sl_stream sl_lg sl_sev].
@@ -355,12 +358,12 @@ Qed.
 
 Lemma mid_thresholds cfg v mid : forall w w' ev,
   forallb (mid_ok v) mid = true -> exec_prog cfg w mid = (w', ev) ->
-  forallb (fun o => match o with OSet _ _ => false | _ => true end) mid = true -> w_th w' = w_th w.
+  forallb (fun o => match o with OSet _ _ _ => false | _ => true end) mid = true -> w_th w' = w_th w.
 Proof.
   induction mid as [|o mid IH]; intros w w' ev Hok E Hns.
   - simpl in E. now inversion E.
   - cbn [forallb] in Hok, Hns. apply andb_true_iff in Hok as [Ho Hok]. apply andb_true_iff in Hns as [Hn Hns].
-    destruct o as [k s|?|?|v' it|?]; try discriminate.
+    destruct o as [rc k s|?|?|v' it|?]; try discriminate.
     cbn [exec_prog] in E. destruct (exec_op cfg w (OPut v' it)) as [w1 e1] eqn:E1.
     destruct (exec_prog cfg w1 mid) as [w2 e2] eqn:E2. inversion E; subst.
     rewrite (IH w1 w' e2 Hok E2 Hns). cbn [exec_op] in E1.
@@ -390,7 +393,7 @@ Lemma made_stream_life cfg th lg sv tag its :
 Proof.
   unfold make_stream, spec_stmt, enabled, stream_kind. rewrite sev_ge_gate.
   destruct (gate_open (c_min cfg) sv); cbn [andb].
-  - rewrite construct_spec. destruct (holds th (lg_filter lg) sv).
+  - rewrite construct_spec. destruct (holds (th (lg_rec lg)) (lg_filter lg) sv).
     + rewrite stream_puts_live. cbn [fst snd stream_destroy]. rewrite destroy_live. reflexivity.
     + rewrite stream_puts_dead. reflexivity.
   - rewrite stream_puts_null. reflexivity.
@@ -423,7 +426,7 @@ Proof.
   change (items_of (map (OPut v) (a :: its))) with (a :: items_of (map (OPut v) its)). now rewrite IH.
 Qed.
 Lemma puts_no_set v its :
-  forallb (fun o => match o with OSet _ _ => false | _ => true end) (map (OPut v) its) = true.
+  forallb (fun o => match o with OSet _ _ _ => false | _ => true end) (map (OPut v) its) = true.
 Proof. induction its; simpl; auto. Qed.
 
 (* form 2: a named stream object in a free variable *)
@@ -459,9 +462,9 @@ Theorem seq_spec cfg l : forall w,
   snd (exec_prog cfg w (flat_map sitem_ops l)) = spec_seq cfg (w_th w) l.
 Proof.
   induction l as [|x l IH]; intros w Hfree; [reflexivity|].
-  cbn [flat_map]. rewrite exec_prog_app. destruct x as [k s|f lg sv tag its].
+  cbn [flat_map]. rewrite exec_prog_app. destruct x as [rc k s|f lg sv tag its].
   - cbn [sitem_ops exec_prog exec_op spec_seq].
-    specialize (IH (mkWorld (set_threshold (w_th w) k s) (w_slots w)) Hfree).
+    specialize (IH (mkWorld (set_threshold (w_th w) rc k s) (w_slots w)) Hfree).
     destruct (exec_prog cfg _ (flat_map sitem_ops l)) as [w2 e2]. cbn [snd] in *. exact IH.
   - destruct f; cbn [sitem_ops spec_seq].
     + cbn [exec_prog exec_op]. specialize (IH w Hfree).
@@ -553,8 +556,8 @@ Theorem delivered_content cfg th lg sv tag its e :
   In e (spec_stmt cfg th lg sv tag its) ->
   match e with
   | Call id => In id (calls_of its)
-  | Format r => r = mkRecord sv (tag_text tag) (message its)
-  | Sink i s t => i < lg_sinks lg /\ s = sv /\ t = c_fmt cfg (mkRecord sv (tag_text tag) (message its))
+  | Format r => r = mkRecord sv (rec_tag lg tag) (message its)
+  | Sink i s t => i < lg_sinks lg /\ s = sv /\ t = c_fmt cfg (mkRecord sv (rec_tag lg tag) (message its))
   | Fault => False
   end.
 Proof.
@@ -634,7 +637,7 @@ Theorem live_iff_enabled cfg th lg sv tag its :
 Proof.
   unfold make_stream, enabled, stream_kind. rewrite sev_ge_gate.
   destruct (gate_open (c_min cfg) sv); cbn [andb].
-  - rewrite construct_spec. destruct (holds th (lg_filter lg) sv).
+  - rewrite construct_spec. destruct (holds (th (lg_rec lg)) (lg_filter lg) sv).
     + rewrite stream_puts_live. reflexivity.
     + rewrite stream_puts_dead. reflexivity.
   - rewrite stream_puts_null. reflexivity.
@@ -683,8 +686,43 @@ Qed.
 
 (* ---------------------------------------------------------------- the same facts stated on the model's functions *)
 
-Lemma tag_text_plain t : ~ In x00 t -> tag_text (Some t) = t.
-Proof. apply cstr_no_nul. Qed.
+Lemma tag_text_plain lg t : lg_tagged lg = true -> ~ In x00 t -> rec_tag lg (Some t) = t.
+Proof. unfold rec_tag. intros ->. apply cstr_no_nul. Qed.
+
+(* a record type without a tag attribute carries no tag *)
+Lemma untagged_no_tag lg tag : lg_tagged lg = false -> rec_tag lg tag = [].
+Proof. unfold rec_tag. now intros ->. Qed.
+
+(* ---------------------------------------------------------------- thresholds are per record type *)
+
+Lemma set_threshold_other th rc k s rc' : rc' <> rc -> set_threshold th rc k s rc' = th rc'.
+Proof. intros H. unfold set_threshold. apply Nat.eqb_neq in H. now rewrite H. Qed.
+
+(* the getter: min_severity of (rc', k') after set_severity on (rc, k) *)
+Theorem min_severity_after_set th rc k s rc' k' :
+  min_severity (set_threshold th rc k s) rc' k' = if (rc' =? rc) && (k' =? k) then s else min_severity th rc' k'.
+Proof.
+  unfold min_severity, set_threshold. destruct (rc' =? rc); [|reflexivity]. destruct (k' =? k); reflexivity.
+Qed.
+
+(* configuring the severity filter of one record type changes no statement of a logger over another record type *)
+Theorem thresholds_independent_one cfg th rc k s lg sv tag its :
+  lg_rec lg <> rc ->
+  exec_one cfg (set_threshold th rc k s) lg sv tag its = exec_one cfg th lg sv tag its.
+Proof.
+  intros H. unfold exec_one, ss_construct. now rewrite (set_threshold_other th rc k s (lg_rec lg) H).
+Qed.
+
+Theorem thresholds_independent_named cfg th rc k s lg sv tag :
+  lg_rec lg <> rc ->
+  make_stream cfg (set_threshold th rc k s) lg sv tag = make_stream cfg th lg sv tag.
+Proof.
+  intros H. unfold make_stream, ss_construct. now rewrite (set_threshold_other th rc k s (lg_rec lg) H).
+Qed.
+
+Theorem thresholds_independent_enabled min th rc k s lg sv :
+  lg_rec lg <> rc -> enabled min (set_threshold th rc k s) lg sv = enabled min th lg sv.
+Proof. intros H. unfold enabled. now rewrite (set_threshold_other th rc k s (lg_rec lg) H). Qed.
 
 Theorem one_sink_exactly_once cfg th lg sv tag its i :
   count (is_sink_of i) (exec_one cfg th lg sv tag its)
@@ -703,8 +741,8 @@ Theorem one_delivered_content cfg th lg sv tag its e :
   In e (exec_one cfg th lg sv tag its) ->
   match e with
   | Call id => In id (calls_of its)
-  | Format r => r = mkRecord sv (tag_text tag) (message its)
-  | Sink i s t => i < lg_sinks lg /\ s = sv /\ t = c_fmt cfg (mkRecord sv (tag_text tag) (message its))
+  | Format r => r = mkRecord sv (rec_tag lg tag) (message its)
+  | Sink i s t => i < lg_sinks lg /\ s = sv /\ t = c_fmt cfg (mkRecord sv (rec_tag lg tag) (message its))
   | Fault => False
   end.
 Proof. rewrite exec_one_spec. apply delivered_content. Qed.
@@ -720,17 +758,17 @@ Theorem one_calls_once_each cfg th lg sv tag its id :
 Proof. rewrite exec_one_spec. apply calls_once_each. Qed.
 
 Lemma not_enabled min th lg sv :
-  gate_open min sv = false \/ holds th (lg_filter lg) sv = false -> enabled min th lg sv = false.
+  gate_open min sv = false \/ holds (th (lg_rec lg)) (lg_filter lg) sv = false -> enabled min th lg sv = false.
 Proof. unfold enabled. intros [-> | ->]; [reflexivity | apply andb_false_r]. Qed.
 
 Theorem one_disabled_nothing cfg th lg sv tag its :
-  gate_open (c_min cfg) sv = false \/ holds th (lg_filter lg) sv = false ->
+  gate_open (c_min cfg) sv = false \/ holds (th (lg_rec lg)) (lg_filter lg) sv = false ->
   exec_one cfg th lg sv tag its = [].
 Proof. intros H. rewrite exec_one_spec. apply disabled_nothing, not_enabled, H. Qed.
 
 Theorem named_disabled_nothing cfg w v lg sv tag its :
   w_slots w v = None ->
-  gate_open (c_min cfg) sv = false \/ holds (w_th w) (lg_filter lg) sv = false ->
+  gate_open (c_min cfg) sv = false \/ holds (w_th w (lg_rec lg)) (lg_filter lg) sv = false ->
   snd (exec_prog cfg w (named_ops v lg sv tag its)) = [].
 Proof.
   intros Hfree H. destruct (named_spec cfg w v lg sv tag its Hfree) as (w' & E & _). rewrite E.
@@ -752,7 +790,7 @@ Proof. unfold received. apply flat_map_app. Qed.
 
 Lemma formatted_stmt cfg th lg sv tag its :
   formatted (spec_stmt cfg th lg sv tag its)
-  = if enabled (c_min cfg) th lg sv then [delivered sv tag its] else [].
+  = if enabled (c_min cfg) th lg sv then [delivered lg sv tag its] else [].
 Proof.
   unfold spec_stmt. destruct (enabled (c_min cfg) th lg sv); [|reflexivity].
   rewrite formatted_app. unfold delivery.
@@ -788,7 +826,7 @@ Qed.
 Lemma received_stmt cfg th lg sv tag its i :
   received i (spec_stmt cfg th lg sv tag its)
   = if enabled (c_min cfg) th lg sv && (i <? lg_sinks lg)
-    then [(sv, c_fmt cfg (delivered sv tag its))] else [].
+    then [(sv, c_fmt cfg (delivered lg sv tag its))] else [].
 Proof.
   unfold spec_stmt. destruct (enabled (c_min cfg) th lg sv); [|reflexivity].
   rewrite received_app. unfold delivery.
@@ -805,7 +843,7 @@ Theorem arrivals_in_program_order cfg l : forall th,
                      (filter (fun p => i <? lg_sinks (fst p)) (arrivals (c_min cfg) th l)).
 Proof.
   induction l as [|x l IH]; intros th; [split; reflexivity|].
-  destruct x as [k s|f lg sv tag its]; cbn [spec_seq arrivals]; [apply IH|].
+  destruct x as [rc k s|f lg sv tag its]; cbn [spec_seq arrivals]; [apply IH|].
   destruct (IH th) as [IH1 IH2]. split.
   - rewrite formatted_app, formatted_stmt, map_app, IH1.
     destruct (enabled (c_min cfg) th lg sv); reflexivity.
@@ -840,7 +878,7 @@ Qed.
 
 Lemma spec_op_no_fault cfg sw o : ~ In Fault (snd (spec_op cfg sw o)).
 Proof.
-  destruct o as [k s|lg sv tag its|v lg sv tag|v it|v]; cbn [spec_op].
+  destruct o as [rc k s|lg sv tag its|v lg sv tag|v it|v]; cbn [spec_op].
   - intros [].
   - apply spec_stmt_no_fault.
   - pose proof (spec_close_no_fault cfg sw v) as H. destruct (spec_close cfg sw v) as [sw1 ev]. exact H.
